@@ -118,6 +118,14 @@ fn all_configs() -> Vec<Cfg> {
             }
         }
     }
+    // caches with a few hundred residents (victim searches over long queues)
+    for flavour in flavour_list() {
+        for policy in Policy::ALL.into_iter().filter(|p| *p != Policy::Random) {
+            for limit in [300usize, 270] {
+                v.push(Cfg { flavour, policy, limit: Some(limit), ttl: None, max_memory: None, fw: if policy == Policy::Tlru && limit == 270 { Some(1.5) } else { None }, age_exact: false });
+            }
+        }
+    }
     v
 }
 
@@ -129,7 +137,39 @@ fn key_of(s: &str) -> Option<Key> {
 }
 
 /// Generates a history for `cfg`.
+/// History for a cache with hundreds of residents: fill it, hit mostly the early keys (so that
+/// the least popular / lowest-score entries sit far back in the order queue), then overflow.
+fn gen_history_large(cfg: &Cfg, rng: &mut Rng, next_id: &mut u64) -> (Vec<Op>, bool) {
+    let n = cfg.limit.unwrap();
+    let mut ops = vec![];
+    for k in 0..n {
+        *next_id += 1;
+        ops.push(Op::Put(k as Key, 0, *next_id, 48, 0));
+    }
+    // every key but a few late ones gets at least one hit
+    let spared: Vec<usize> = (0..3).map(|_| n - 1 - rng.usize(30)).collect();
+    for k in 0..n {
+        if !spared.contains(&k) {
+            ops.push(Op::Get(k as Key));
+            if rng.chance(1, 5) {
+                ops.push(Op::Get(k as Key));
+            }
+        }
+    }
+    for i in 0..(4 + rng.usize(6)) {
+        *next_id += 1;
+        ops.push(Op::Put((n + i) as Key, 0, *next_id, 48, 0));
+        if rng.chance(1, 2) {
+            ops.push(Op::Get(rng.usize(n) as Key));
+        }
+    }
+    (ops, false)
+}
+
 fn gen_history(cfg: &Cfg, rng: &mut Rng, next_id: &mut u64) -> (Vec<Op>, bool) {
+    if cfg.limit.map_or(false, |n| (100..100_000).contains(&n)) {
+        return gen_history_large(cfg, rng, next_id);
+    }
     let cap = cfg.limit.unwrap_or(if cfg.max_memory.is_some() { 4 } else { 3 }).min(5);
     let alphabet = cap + 1 + rng.usize(3);
     let len = 40 + rng.usize(160);
@@ -181,7 +221,12 @@ fn gen_history(cfg: &Cfg, rng: &mut Rng, next_id: &mut u64) -> (Vec<Op>, bool) {
                         _ => 40 + rng.usize(m / 2),
                     };
                     let variant = if t >= 150 { 1 + rng.usize(15) } else if t >= 110 { [1usize, 2, 3, 4, 5, 6, 7, 8, 10, 11, 13, 15][rng.usize(12)] } else { [1usize, 2, 4, 5, 7, 8, 10][rng.usize(7)] };
-                    (variant, t, if rng.chance(1, 3) { rng.usize(24) } else { 0 })
+                    if rng.chance(1, 14) {
+                        // a value whose estimator reports 0 bytes (unit-like): evicting it frees nothing
+                        (8, 0, 0)
+                    } else {
+                        (variant, t, if rng.chance(1, 3) { rng.usize(24) } else { 0 })
+                    }
                 }
             };
             born.insert(k, now);
